@@ -14,7 +14,8 @@ What is proved (names as registered in props/c17.py)
               `float_is_float`; `implicit_mul`: `<digits><identifier>` is `digits * identifier`.
   strings     `parse_pretty` (`parse_pretty_cx` for convert_xor = true): tokenizer and grammar together - the rendered
               byte string of any well-formed printed form, with arbitrary whitespace, parses to its tree
-              (`lexTok_text`, `lexAll_render` in Lemmas/C17Lex.lean are the tokenizer round trip).
+              (`lexTok_text`, `lexAll_render` in Lemmas/C17Lex.lean are the tokenizer round trip);
+              `parse_pretty_tight`: no whitespace is ever required (`sepOK_tight`, Lemmas/C17Tight.lean).
   grammar     `parse_pretty_tokens`: for EVERY printed form `d` (`Doc`: a tree with all its parentheses and
               implicit-multiplication tokens) whose parentheses are sufficient w.r.t. the binding powers of parser.yy
               (`OK genBP d`, any number of redundant pairs allowed) the model parser returns the tree the form stands
@@ -33,6 +34,7 @@ import Mathlib.Tactic.Ring
 import SymVerif.Lemmas.NFSound
 import SymVerif.Lemmas.C17Pratt
 import SymVerif.Lemmas.C17Lex
+import SymVerif.Lemmas.C17Tight
 import SymVerif.Model.ParserSem
 
 namespace SymVerif
@@ -265,6 +267,13 @@ theorem parse_pretty (d : Doc) (ws : Nat → Bytes) (hws : ∀ i, AllWs (ws i))
   simp only [Bool.false_eq_true, if_false]
   rw [lexAll_renderInput ws hws d.toks hv hsep]
   exact parse_pretty_tokens' d hok
+
+/-- **Whitespace is never required**: written tightly (the token texts concatenated, nothing in between), every
+well-formed printed form with sufficient parentheses parses to its tree - adjacent tokens of a printed form never
+run into each other (`sepOK_tight`). -/
+theorem parse_pretty_tight (d : Doc) (hv : ∀ t ∈ d.toks, ValidTok t) (hok : OK genBP d) :
+    parseBytes (renderInput (fun _ => []) d.toks) false = .ok d.ast :=
+  parse_pretty d (fun _ => []) (fun _ x hx => by cases hx) hv (sepOK_tight genBP d hok hv) hok
 
 theorem convertXor_id : ∀ (l : Bytes), (94 : UInt8) ∉ l → convertXor l = l
   | [], _ => rfl
